@@ -177,16 +177,19 @@ def omap_from_pairs(it, src):
         kind, coll = M.iter_of(it, src)
         segs_in = [coll] if kind != "segments" else coll
     segs = []
+    late_entries = []        # (key, value, key_py) pairs that follow a symbolic segment: applied with dict
+                             # assignment semantics (an existing key keeps its position, its value is replaced)
     for sg in segs_in:
-        if isinstance(sg, list):
-            for kv in sg:
+        if isinstance(sg, (list, PyList)):
+            for kv in (sg if isinstance(sg, list) else sg.items):
                 k, v = M.unpack(it, kv, 2)
-                segs.append(Entry(M.to_v(it, k), v, k if isinstance(k, str) else None))
-        elif isinstance(sg, PyList):
-            for kv in sg.items:
-                k, v = M.unpack(it, kv, 2)
-                segs.append(Entry(M.to_v(it, k), v, k if isinstance(k, str) else None))
+                if any(isinstance(x, Family) for x in segs):
+                    late_entries.append((k, v))
+                else:
+                    segs.append(Entry(M.to_v(it, k), v, k if isinstance(k, str) else None))
         else:
+            if late_entries:
+                raise Unsupported("dict construction: symbolic segment after overriding entries")
             segs.append(Family(ctx, sg.len, (lambda s: lambda c: s.at(c)[0])(sg), (lambda s: lambda c: s.at(c)[1])(sg), name="famnew"))
     # distinctness of keys
     c1, c2 = z3.Ints("c1!dk c2!dk")
@@ -211,7 +214,10 @@ def omap_from_pairs(it, src):
                 ctx.prove("pre:dict-keys-distinct(entry vs loop)",
                           z3.ForAll([c1], z3.Implies(in_range(c1, f.n), f.key_at(c1) != e.key)), kind="pre")
                 ctx.assumptions.append(z3.Not(f.has(e.key)))
-    return OMap(segs)
+    om = OMap(segs)
+    for k, v in late_entries:
+        om = om.set(it, k, v)
+    return om
 
 
 # ---- dict methods on instances of repository classes deriving from dict ---------------------------
